@@ -142,7 +142,7 @@ parse_and_get_code = Contract(
     file='jedi/inference/__init__.py', qualname='InferenceState.parse_and_get_code',
     params={'self': Obj('ISParse'), 'code': Opt(ANY), 'path': ANY, 'use_latest_grammar': BOOL, 'file_io': Opt(Obj('FIOp')),
             'kwargs': ANY},
-    families=['ISParse', 'Grammar', 'FIOp'], ret=Tup(ANY, STR),
+    families=['ISParse', 'GrammarL', 'FIOp'], ret=Tup(ANY, STR),
     requires=['settings._cropped_file_size >= 0'],
     ensures=[
         'implies(code is not None, "read-file" not in EFFECTS and result[1] == crop(decode_lenient(the(code))))',
@@ -164,8 +164,8 @@ FAMILIES = [
         'InferenceState.parse', params=[('file_io', _FIO), ('cache', BOOL), ('diff_cache', BOOL), ('cache_path', STR)],
         ret=ANY, pure=True, assumed=True, note='parso parse through its cache (revalidated against the file\'s mtime)')}),
     Family('FIOLoad', attrs={'path': ANY}),
-    Family('ISParse', attrs={'grammar': Obj('Grammar'), 'latest_grammar': Obj('Grammar')}),
-    Family('Grammar', methods={'parse': FnSpec('Grammar.parse', impl=_grammar_parse, assumed=True)}),
+    Family('ISParse', attrs={'grammar': Obj('GrammarL'), 'latest_grammar': Obj('GrammarL')}),
+    Family('GrammarL', methods={'parse': FnSpec('Grammar.parse', impl=_grammar_parse, assumed=True)}),
     Family('FIOp', attrs={'path': ANY}, methods={'read': FnSpec('FileIO.read', ret=ANY, pure=True, assumed=True,
                                                                effects=['read-file'],
                                                                note='the bytes of the file at the time of the call')}),
